@@ -85,7 +85,11 @@ func c02Classify(d sx.Diff, c *sx.StepCtx) string {
 	if c.Op.Kind == "Delete" && c.Op.V != "" {
 		if b := c.M.Buckets[c.Op.B]; b != nil {
 			if cur := b.Current(c.Op.K); cur != nil && cur.VID == "null" && c02RewrittenBehind(b.Keys[c.Op.K], cur) {
-				if strings.Contains(d.Where, c.Op.B+"/"+c.Op.K) && (d.Class == "version" || d.Class == "content" || d.Class == "etag" || d.Class == "meta") {
+				if strings.Contains(d.Where, c.Op.B+"/"+c.Op.K) && (d.Class == "version" || d.Class == "content" || d.Class == "etag" || d.Class == "meta" || d.Class == "exist") {
+					return "promotion-ignores-rewritten-null-version"
+				}
+				// the wrongly promoted survivor may be a delete marker: the key then vanishes from the listing
+				if d.Class == "exist" && strings.Contains(d.Where, "bucket "+c.Op.B+".list") {
 					return "promotion-ignores-rewritten-null-version"
 				}
 			}
